@@ -240,6 +240,25 @@ impl File {
             },
     { unimplemented!() }
 
+    /// K-write: one write(2) at the cursor: some non-empty prefix of a non-empty buffer is written (a short count is legal), or an error
+    #[verifier::external_body]
+    pub fn write(&self, buf: &[u8], Tracked(w): Tracked<&mut World>) -> (r: std::result::Result<usize, io::Error>)
+        ensures fr_data(*old(w), *final(w)), final(w).eintr_left == old(w).eintr_left,
+            forall|i: FdId| i != self.id() ==> final(w).cursor[i] == old(w).cursor[i],
+            forall|j: Inode| j != self.inode() ==> final(w).files[j] == old(w).files[j],
+            match r {
+                Ok(n) => {
+                    let pos = old(w).cursor[self.id()] as int;
+                    &&& n <= buf@.len() && (buf@.len() > 0 ==> n > 0)
+                    &&& final(w).faults == old(w).faults
+                    &&& final(w).files == old(w).files.insert(self.inode(), fs_write(old(w).files[self.inode()], pos, buf@.subrange(0, n as int)))
+                    &&& final(w).cursor[self.id()] == pos + n
+                    &&& final(w).trace == old(w).trace.push(Event::Write(self.inode(), pos, n as int))
+                },
+                Err(_) => final(w).faults == old(w).faults + 1 && final(w).files == old(w).files && final(w).cursor == old(w).cursor && final(w).trace == old(w).trace,
+            },
+    { unimplemented!() }
+
     /// fchmod
     #[verifier::external_body]
     pub fn set_permissions(&self, perm: Permissions, Tracked(w): Tracked<&mut World>) -> (r: std::result::Result<(), io::Error>)
